@@ -6,8 +6,9 @@ import fcntl, glob, hashlib, json, os, random, re, shutil, subprocess, sys, temp
 from fractions import Fraction
 
 VERIF = os.path.dirname(os.path.dirname(os.path.abspath(__file__)))
-COQ = os.path.join(VERIF, "coq")
-REPO = os.environ.get("ALDY_REPO", "/repo")
+COQ = os.environ.get("VERIF_COQ_DIR", os.path.join(VERIF, "coq"))      # seeded-change runs use a private copy
+REPO = os.environ.get("ALDY_REPO", "/repo")                              # ... and a scratch worktree of /repo
+OUT = os.environ.get("VERIF_OUT_DIR", VERIF)                             # where evidence/ and replays/ are written
 SCRATCH = os.path.join(VERIF, ".scratch")
 COQ_FLAGS = ["-Q", "theories", "Aldy", "-Q", "gen", "Aldy", "-Q", "proofs", "Aldy", "-Q", "props", "Aldy"]
 FORBIDDEN = re.compile(
@@ -209,11 +210,13 @@ class Build:
         self.files = []
         self.assumptions = {}  # theorem -> list of axioms ([] = closed)
         self.log = ""
+        self.coqchk = None
 
 
 def regenerate():
     """re-run the translator; returns (ok, message)"""
-    rc, out = _sh([sys.executable, os.path.join(VERIF, "harness", "gen_consts.py")], env=dict(os.environ, ALDY_REPO=REPO))
+    rc, out = _sh([sys.executable, os.path.join(VERIF, "harness", "gen_consts.py"), os.path.join(COQ, "gen", "Consts_here.v")],
+                  env=dict(os.environ, ALDY_REPO=REPO))
     return rc == 0, out.strip()
 
 
@@ -225,7 +228,7 @@ def closure(prop_file):
     return files
 
 
-def build(prop, extra_targets=()):
+def build(prop, extra_targets=(), thorough=False):
     """Build everything props/<prop>.v needs; compile it; audit. Never raises for Coq failures: they are broken obligations."""
     b = Build()
     os.makedirs(os.path.join(COQ, "gen"), exist_ok=True)
@@ -269,6 +272,17 @@ def build(prop, extra_targets=()):
                     bad = [a for a in ax if a.split()[0] not in ALLOWED_AXIOMS]
                     if bad:
                         b.broken.append((f"assumptions:{thm}", "depends on: " + ", ".join(bad)))
+                if thorough:
+                    # independent re-check of the compiled files and everything they depend on
+                    rc, out = _sh(["timeout", "1500", "coqchk", "-silent", "-o"] + COQ_FLAGS + [f"Aldy.{prop}"], cwd=COQ, timeout=1600)
+                    b.coqchk = out[out.find("CONTEXT SUMMARY"):][:3000] if "CONTEXT SUMMARY" in out else out[-1500:]
+                    m = re.search(r"\* Axioms:\s*(.*?)\n\s*\n\* Constants/Inductives relying on type-in-type:\s*(.*?)\n\s*\n"
+                                  r"\* Constants/Inductives relying on unsafe \(co\)fixpoints:\s*(.*?)\n\s*\n\* Inductives whose positivity is assumed:\s*(.*?)\n",
+                                  out, re.S)
+                    if rc != 0 or not m:
+                        b.broken.append((f"coqchk:{prop}", out[-1500:]))
+                    elif any(x.strip() != "<none>" for x in m.groups()):
+                        b.broken.append((f"coqchk:{prop}", "context summary not clean: " + b.coqchk))
         else:
             b.broken.append((f"coq-props:{prop}.v missing", ""))
     finally:
@@ -405,7 +419,7 @@ class Check:
 
     # -- step 1/2
     def build(self, extra_targets=()):
-        b = build(self.prop, extra_targets)
+        b = build(self.prop, extra_targets, thorough=(self.tier == "thorough"))
         self.build_info = b
         self.obligations = b.obligations
         nbroken = len(b.broken)
@@ -463,7 +477,7 @@ class Check:
         for fid, (e, n) in sorted(known_hit.items()):
             lines.append(f"KNOWN-FINDING: property={self.prop} {e['what']} [{fid}; {n} case(s) this run]")
         violations = 0
-        os.makedirs(os.path.join(VERIF, "replays"), exist_ok=True)
+        os.makedirs(os.path.join(OUT, "replays"), exist_ok=True)
         if unknown:
             # one replay per clause (first, i.e. smallest index, failing case)
             seen = set()
@@ -471,7 +485,7 @@ class Check:
                 if f["clause"] in seen:
                     continue
                 seen.add(f["clause"])
-                path = os.path.join(VERIF, "replays", f"{self.prop}_{f['clause']}_{self.seed}.json")
+                path = os.path.join(OUT, "replays", f"{self.prop}_{f['clause']}_{self.seed}.json")
                 json.dump({"property": self.prop, "kind": "failing-input", "clause": f["clause"], "seed": self.seed,
                            "tier": self.tier, "desc": f["desc"], "case": f["case"], "expected": f["expected"],
                            "observed": f["observed"],
@@ -480,7 +494,7 @@ class Check:
                 lines.append(f"VIOLATION property={self.prop} replay={path}")
                 violations += 1
         elif self.broken:
-            path = os.path.join(VERIF, "replays", f"{self.prop}_broken_{self.seed}.json")
+            path = os.path.join(OUT, "replays", f"{self.prop}_broken_{self.seed}.json")
             json.dump({"property": self.prop, "kind": "broken-" + self.broken[0][0], "seed": self.seed, "tier": self.tier,
                        "broken": [{"kind": k, "name": n, "detail": d} for k, n, d in self.broken],
                        "note": "the property is no longer shown to hold: the named theorem/translator/correspondence does not check "
@@ -515,6 +529,7 @@ class Check:
             "streams": self.streams,
             "theorems": {k: ("closed under the global context" if not v else v) for k, v in (b.assumptions.items() if b else [])},
             "closure_files": b.files if b else [],
+            "coqchk": (b.coqchk if b else None),
             "broken": [{"kind": k, "name": n} for k, n, _ in self.broken],
             "known_findings_hit": known,
         }
@@ -522,8 +537,8 @@ class Check:
             cov["exhaustive"] = self.exhaustive
         ev = {"property_id": self.prop, "tier": self.tier, "seed": self.seed, "level": "proof", "coverage": cov,
               "assumptions": self.assumptions, "wall_s": round(time.time() - self.t0, 2), "violations": violations}
-        os.makedirs(os.path.join(VERIF, "evidence"), exist_ok=True)
-        json.dump(ev, open(os.path.join(VERIF, "evidence", f"{self.prop}.json"), "w"), indent=1, default=str)
+        os.makedirs(os.path.join(OUT, "evidence"), exist_ok=True)
+        json.dump(ev, open(os.path.join(OUT, "evidence", f"{self.prop}.json"), "w"), indent=1, default=str)
 
 
 def quiet_aldy():
